@@ -68,6 +68,8 @@ func plan(quick bool) []planEntry {
 			e("G4-dart-notch", 4, F, T), e("G4-dart-notch", 4, T, F),
 			e("G5-tri-quad", 4, F, T, F, T),
 			e("G5-quad-quad", 4, F, T, T, T), e("G5-quad-quad", 4, T, T, T, F),
+			// concave rings whose bounding-box centre lies outside them
+			e("G6-U-U", 3), e("G6-U-U-notch", 3), e("G6-U-U-notch", 4, T, F, T),
 			// many pieces: rotations + reversal of the sequential and interleaved orders
 			many("G2-tri-tri", 6, 6), many("G4-dart-notch", 7, 7), many("G5-tri-quad", 8, 8, F, F, T, T),
 		}
@@ -82,6 +84,7 @@ func plan(quick bool) []planEntry {
 		e("G5-tri-quad", 4), e("G5-quad-quad", 4),
 		e("G5-tri-quad", 5, F, T, T, T), e("G5-tri-quad", 6, T, F, T, T),
 		e("G5-quad-quad", 5, T, T, F, T), e("G5-quad-quad", 5, T, T, T, F),
+		e("G6-U-U", 4), e("G6-U-U-notch", 4), e("G6-U-U-notch", 5, T, F, T), e("G6-U-U-notch", 5, F, T, T),
 		// many pieces: rotations + reversal of the sequential and interleaved orders
 		many("G2-quad-quad", 7, 8), many("G4-quad-quad", 7, 8), many("G2-pent-tri", 8, 8),
 		many("G3-quad-tri-tri", 11, 11), many("G5-tri-quad", 7, 8, F, F, T, T), many("G5-quad-quad", 9, 9, F, F, T, T),
